@@ -253,23 +253,45 @@ From PV Require Import Proofs.SendIcmp6.
 
 Theorem C07_icmp6_send_any_message : forall c sm si dm di t cd q junk,
   mac_ok (host_mac c) -> mac_ok dm -> ip6_ok si -> ip6_ok di -> t < 256 -> cd < 256 ->
-  bytes_ok q -> (length q <= 1400)%nat -> length junk = EthMaxSize ->
+  bytes_ok q -> (length q <= 1464)%nat -> length junk = EthMaxSize ->
   exists fr, icmp6_send_packet c (sm, si) (dm, di) (t :: cd :: 0 :: 0 :: q) junk = Ok [fr] /\
     wf_icmp6 (host_mac c) dm si di t cd (beq q) fr = true.
 Proof. exact icmp6_generic. Qed.
 Print Assumptions C07_icmp6_send_any_message.
 
 (* ICMP6SendRouterAdvertisement after fix 6efe826: type 134, code 0, host MAC + LLA as source, requested
-   destination, hop limit rule, checksum, fixed RA fields and exactly the marshalled option block.
-   Partial: that the option block decodes to the requested option list is judged per case by the
-   executable reference decoder (spec column of the correspondence), not proved for all lists. *)
-Theorem C07_ra_partial : forall c prefixes rdnss dm di junk ob,
+   destination, hop limit rule, checksum, fixed RA fields and exactly the marshalled option block
+   (frame-level half; the option block is handled by C07_ra_wellformed below) *)
+Theorem C07_ra_frame : forall c prefixes rdnss dm di junk ob,
   mac_ok (host_mac c) -> ip6_ok (host_lla c) -> mac_ok dm -> ip6_ok di -> prefixes <> [] ->
   cat_opts ((match rdnss with Some (lt, srv) => [rdnss_option lt srv] | None => [] end)
             ++ map (fun p => prefix_option (u8 (fst p)) true true 7200 1800 (snd p)) prefixes
             ++ [dnssl_lan_option 1200; mtu_option (u32 (mtu c)); lla_option 1 (host_mac c)]) = Some ob ->
-  bytes_ok ob -> (length ob <= 1380)%nat -> length junk = EthMaxSize ->
+  bytes_ok ob -> (length ob <= 1452)%nat -> length junk = EthMaxSize ->
   exists fr, send_ra c prefixes rdnss (dm, di) junk = Ok [fr] /\
     wf_icmp6 (host_mac c) dm (host_lla c) di 134 0 (beq (ra_fixed ++ ob)) fr = true.
 Proof. exact ra_partial. Qed.
-Print Assumptions C07_ra_partial.
+Print Assumptions C07_ra_frame.
+
+(* ICMP6SendRouterAdvertisement, full: for every prefix list (prefix lengths < 256, 16-byte prefixes), every
+   RDNSS argument (16-byte servers), destination, configuration and buffer content: whenever a frame is
+   sent it is the requested Router Advertisement (RFC 4861 4.2: type 134, code 0, cur hop limit 64, lifetime
+   1800 s; options RDNSS / one Prefix Information per prefix with L and A set / DNSSL "lan" / MTU / SLLA =
+   host MAC decode back in that order), Ethernet source = host MAC, IPv6 source = host LLA, hop limit 255
+   towards link-local destinations, checksum verifies.  (No frame: the marshalling refused the arguments;
+   a panic for an option block that does not fit the buffer is excluded by the hypothesis Ok [fr].) *)
+From PV Require Import Proofs.SendRa.
+Theorem C07_ra_wellformed : forall c pf rd dm di junk fr,
+  mac_ok (host_mac c) -> ip6_ok (host_lla c) -> mac_ok dm -> ip6_ok di -> pf_ok pf -> rd_ok rd ->
+  length junk = EthMaxSize ->
+  send_ra c pf rd (dm, di) junk = Ok [fr] ->
+  wf_ra (host_mac c) (host_lla c) (mtu c) pf rd dm di fr = true.
+Proof. exact ra_wf. Qed.
+Print Assumptions C07_ra_wellformed.
+
+Example C07_ra_wellformed_inhabited :
+  exists c pf rd dm di junk fr,
+    mac_ok (host_mac c) /\ ip6_ok (host_lla c) /\ mac_ok dm /\ ip6_ok di /\ pf_ok pf /\ rd_ok rd /\
+    length junk = EthMaxSize /\ send_ra c pf rd (dm, di) junk = Ok [fr].
+Proof. exact ra_wf_inhabited. Qed.
+Print Assumptions C07_ra_wellformed_inhabited.
